@@ -497,6 +497,7 @@ fn run_one(cx: &mut Ctx, c: &Value) {
         Some("lines") => lines_case(cx, c["text"].as_str().unwrap_or("")),
         Some("case") => case_conv(cx, &bytes_of(&c["text"])),
         Some("split") => split_case(cx, c["text"].as_str().unwrap_or(""), c["d"].as_u64().unwrap_or(44) as u8),
+        Some("radixdeep") => x::radix_deep_case(cx, c["n"].as_u64().unwrap_or(40) as usize, c["len"].as_u64().unwrap_or(100) as usize, c["shape"].as_u64().unwrap_or(0)),
         Some("cmpk") => x::cmpk_emit(cx, &bytes_of(&c["a"]), &bytes_of(&c["b"])),
         Some("faststr_deep") => more::faststr_deep(cx, &bytes_of(&c["a"])),
         Some("streaming") => more::streaming_case(cx, &strs_of(&c["strings"]), &bytes_of(&c["terms"]), c["cut_last"].as_bool().unwrap_or(false)),
@@ -525,7 +526,11 @@ pub fn run(args: &Args) {
     if let Some(f) = &args.replay {
         let v: Value = serde_json::from_str(&std::fs::read_to_string(f).expect("replay file")).expect("json");
         let c = if v.get("case").is_some() { v["case"].clone() } else { v };
-        run_one(&mut cx, &c);
+        if c["cell"].as_str() == Some("radixdeep_child") {
+            x::radix_deep_child(&args.out, c["n"].as_u64().unwrap_or(40) as usize, c["len"].as_u64().unwrap_or(100) as usize, c["shape"].as_u64().unwrap_or(0));
+        } else {
+            run_one(&mut cx, &c);
+        }
         let sh = cx.shards.write(&args.out);
         cx.sum.write(&args.out, sh);
         return;
@@ -744,6 +749,11 @@ pub fn run(args: &Args) {
     more::sortable_long_case(&mut cx, (1 << 20) - 1);
     more::sortable_long_case(&mut cx, 1 << 20);
     more::sortable_long_case(&mut cx, (1 << 20) + 5);
+    // radix_sort on strings with long common runs (recursion depth of the MSD sort), each in a child process
+    for (n, len, shape) in [(40usize, 6000usize, 0u64), (33, 63, 0), (33, 64, 0), (33, 65, 0), (64, 100_000, 0), (4500, 0, 1)] {
+        if !args.thorough && n * len.max(n / 2) > 3_000_000 && args.seed % 2 == 1 && shape == 0 { continue; }
+        x::radix_deep_case(&mut cx, n, len, shape);
+    }
     wide::fixed_families(&mut cx, args);
     cx.sum.cell_status("FastStr", "M+S");
     cx.sum.cell_status("StreamingLexIterator", "M+S");
